@@ -133,14 +133,18 @@ def facts_dir(cfg):
         lock.close()
 
 
-def _prune_cache(keep, max_entries=6):
+def _prune_cache(keep, max_entries=12, min_age_s=1800):
+    """drop the oldest cache entries; never one that was touched in the last 30 minutes (it may belong to a concurrent run)"""
     try:
+        now = time.time()
         ents = [(os.path.getmtime(os.path.join(CACHE, e)), e) for e in os.listdir(CACHE)
                 if os.path.isdir(os.path.join(CACHE, e)) and e != keep]
         ents.sort()
         import shutil
         while len(ents) > max_entries:
-            _, e = ents.pop(0)
+            m, e = ents.pop(0)
+            if now - m < min_age_s:
+                break
             shutil.rmtree(os.path.join(CACHE, e), ignore_errors=True)
     except OSError:
         pass
